@@ -29,6 +29,8 @@ Inductive case :=
 | CPinnedFrames (id : Z) (s : str)                              (* same, pre-repair model [translate_pinned] *)
 | CRc2 (v : impl) (m : moltype) (s : str)                       (* rc(rc(s)) *)
 | CAppFrames (id : Z) (s : str) (allow_rc : bool)               (* app.translate.translate_frames *)
+| CBestFrame (id : Z) (s : str) (allow_rc : bool)               (* app.translate.best_frame *)
+| CSelect (id : Z) (seqs : list str) (allow_rc : bool)          (* select_translatable: kept sequences, trim False / True *)
 | CGetTrans (fixed fd : bool) (kind : Z) (id : Z) (seqs : list str)  (* all 8 (incomplete_ok, include_stop, trim_stop);
                                                                      fixed = with / without the repairs C12-2, C12-3;
                                                                      fd = with / without the repair C12-4 *)
@@ -83,6 +85,12 @@ Definition run_case (c : case) : val :=
       VL (flat_map (fun mn => map (fun st => VS (translate_pinned (code_aa New id) s st mn)) [0; 1; 2]) [false; true])
   | CRc2 v m s => vres VS (bind (rc v m s) (rc v m))
   | CAppFrames id s allow_rc => vres vstrs (translate_frames (code_aa Old id) DNA s allow_rc)
+  | CBestFrame id s allow_rc => vres VZ (best_frame (code_aa Old id) s allow_rc)
+  | CSelect id seqs allow_rc =>
+      VL (map (fun trim : bool =>
+                 VL (map (fun o => match o with Some w => VS w | None => VN end)
+                         (map (fun s => select_translatable_one true (code_aa Old id) s allow_rc trim) seqs)))
+              [false; true])
   | CPinnedTranslate id s start minus => VS (translate_pinned (code_aa New id) s start minus)
   | CTranslateV fm fd id s start minus => VS (translate_w fm fd (code_aa New id) s start minus)
   | CFramesV fm fd id s =>
